@@ -16,6 +16,11 @@ master cannot see DONE before the update it releases;
 (c) ENQ/LOCK: the decision is only invoked under Env.atomically, queue.put
 happens exactly on PENDING, and Env's status/payload accessors touch the
 mapping only under the (re-entrant) lock.
+A status carried inside the dictionary handed to Env.apply counts as a status
+write, atomic with the payload only if Env.apply holds the lock over the whole
+update; a worker write through env[...] that bypasses the Env API must sit
+under the environment lock; helper predicates of the decision are inlined
+with the roles bound by argument position.
 Not decided: other backends, fairness, the behaviour of Task.do itself.
 '''
 ASSUMPTIONS = [
